@@ -251,7 +251,9 @@ def concat_ax(axes):
 
 # ------------------------------------------------------------------------------------------ numpy functions
 REDUCERS = {"sum": "reduce", "mean": "reduce", "max": "reduce", "min": "reduce", "prod": "reduce", "all": "reduce",
-            "any": "reduce", "std": "reduce", "var": "reduce", "amax": "reduce", "amin": "reduce"}
+            "any": "reduce", "std": "reduce", "var": "reduce", "amax": "reduce", "amin": "reduce", "median": "reduce",
+            "average": "reduce", "nanmean": "reduce", "nansum": "reduce", "nanmax": "reduce", "nanmin": "reduce", "ptp": "reduce",
+            "percentile": "reduce", "quantile": "reduce", "count_nonzero": "reduce", "logsumexp": "reduce"}
 ELEMENTWISE1 = {"log", "sqrt", "square", "sign", "abs", "absolute", "exp", "isnan", "isfinite", "negative", "floor", "ceil",
                 "tanh", "log1p", "ascontiguousarray", "asarray", "copy", "nan_to_num"}
 ELEMENTWISE2 = {"maximum", "minimum", "add", "subtract", "multiply", "divide", "power", "logical_and", "logical_or"}
@@ -280,7 +282,7 @@ def call_np(I, name, args, kwargs, node, fr):
             if items and all(isinstance(t, Num) and t.dimof is not None for t in items):
                 return Num("i", dimof=product_ax([t.dimof for t in items]))
             return Num("i")
-        axis = get_axis(args, kwargs, 1)
+        axis = get_axis(args, kwargs, 2 if name in ("percentile", "quantile") else 1)
         return reduce_axes(I, x, axis, get_flag(kwargs, "keepdims", args, 3 if name in ("sum", "mean") else None), node, name,
                            result_elem="b" if name in ("all", "any") else ("f" if name in ("mean", "std", "var") else None))
     if name in ("argmax", "argmin"):
@@ -296,6 +298,8 @@ def call_np(I, name, args, kwargs, node, fr):
             return Arr(x.axes, x.elem) if isinstance(x, Arr) else Num(x.kind)
         if name in ("isnan", "isfinite"):
             return Arr(x.axes, "b") if isinstance(x, Arr) else Num("b")
+        if name in ("log", "log1p") and isinstance(x, Arr) and "softmax" in x.tags:
+            I.event("unsafe-denominator", node, f"log of a softmax output {x!r}: its entries underflow to exactly 0")
         return unary_same(x)
     if name in ELEMENTWISE2:
         if len(args) < 2:
@@ -303,7 +307,9 @@ def call_np(I, name, args, kwargs, node, fr):
         return I.broadcast(args[0], args[1], node, opname=name)
     if name == "clip":
         x = args[0] if args else Top()
-        return x if isinstance(x, (Arr, Num)) else Top("clip")
+        if isinstance(x, Arr):
+            return Arr(x.axes, x.elem, x.space, x.tags - {"softmax"})   # the sanitiser: clipped values are bounded away from 0
+        return x if isinstance(x, Num) else Top("clip")
     if name == "where":
         if len(args) == 1:
             return nonzero(I, args[0], node)
